@@ -721,5 +721,16 @@ def run(ctx):
                       'ItemNotFound from this load is handled at line %s but PermissionDenied %s: the two outcomes reach the client with different reasons/messages' % (
                           getattr(a, 'lineno', None), ('at line %s' % b.lineno) if b is not None else 'propagates unchanged'))
     ctx.analysed['choke_point_calls_inside_try'] = n_t
+    # ---------------- R12 the policy table the decisions read is kept in step with the policy files (lifted from C18)
+    ctx.rule('C03.R12', 'the policy store the access decisions read never keeps a definition that no file provides any more: the monitor\'s shadow-stack maintenance rules hold (lifted from C18.R5-R10: restore after disassociate, no stale snapshots, no modification while iterating, reload drops stale shadow entries, the engine consults the store on every decision) - a permissive definition resurrected from a deleted file would grant what no policy grants')
+    from ..report import Ctx as _LCtx
+    from . import c18 as _c18
+    _sub = _LCtx('C18', 'quick', ctx.src, 0)
+    _c18.run(_sub)
+    _lifted = [f for f in _sub.findings if f.rule in ('C18.R5', 'C18.R6', 'C18.R7', 'C18.R8', 'C18.R9', 'C18.R10')]
+    for f in _lifted:
+        ctx.fail('C03.R12', f.key, f.site, f.message)
+    if not _lifted:
+        ctx.ok('C03.R12', 'kmip/services/server/monitor.py', 'shadow-stack maintenance rules of the policy monitor hold')
     ctx.not_decided += ["SQLAlchemy filter(...).one() returning the row with that identifier", 'the content of operation policies at run time']
     ctx.assumptions += ['pie objects are only obtainable from the session (queries) or constructors', 'T_ACCESS_OP transcribes the property statement and the KMIP policy model']
